@@ -495,7 +495,15 @@ func (t *Term) Alts() []*Term {
 		}
 		seen[x] = true
 		if x.Op == "cycle" {
-			return // back reference to an enclosing phi: covered by its other edges
+			// back reference to a value whose term was under construction: resolve it now
+			if x.V != nil {
+				for _, tb := range tbSingleton {
+					if full, ok := tb.memo[x.V]; ok && full != nil && !seen[full] {
+						rec(full, d+1)
+					}
+				}
+			}
+			return
 		}
 		if x.Op == "phi" || x.Op == "cell" {
 			if len(x.Args) == 0 {
@@ -569,6 +577,13 @@ func (t *Term) Contains(pred func(*Term) bool) bool {
 			return false
 		}
 		seen[x] = true
+		if x.Op == "cycle" && x.V != nil {
+			for _, tb := range tbSingleton {
+				if full, ok := tb.memo[x.V]; ok && full != nil {
+					return rec(full, d+1)
+				}
+			}
+		}
 		if pred(x) {
 			return true
 		}
